@@ -1,7 +1,7 @@
 """C06 - a persistent result stream is a correct prefix and always ends, whatever happens."""
 import ast
 
-from ..astutil import (split_if, edge_facts, AnalysisError, dotted, calls_in, last_attr, receiver, norm, is_name, walk_local, is_self_attr,
+from ..astutil import (split_if, edge_facts, facts_at, AnalysisError, dotted, calls_in, last_attr, receiver, norm, is_name, walk_local, is_self_attr,
                        loc, short, parent_map)
 from ..cfg import is_flow, path_str
 from ..lifecycle import lifecycle, worker_classes, landing_label, handler_context, is_persistent
@@ -362,24 +362,56 @@ def check_frontend(ctx):
 
 
 # ------------------------------------------------------------------------------------------------ reader side
-def check_reader(ctx):
+def check_reader(ctx, rule='R3'):
     P = ctx.prog
     PW = P.cls('PersistentWorker')
     nr = PW.methods.get('next_result')
     ctx.require(nr is not None, 'PersistentWorker.next_result not found')
     ctx.used(nr)
-    # non-blocking read when not alive
-    ok = False
-    for st in walk_local(nr.node):
-        if isinstance(st, ast.If) and 'is_alive()' in norm(st.test):
-            neg = norm(st.test).startswith('not ')
-            dead_branch = st.body if neg else st.orelse
-            alive_branch = st.orelse if neg else st.body
-            reads = [c for x in dead_branch for c in calls_in(x) if last_attr(c) in ('get_nowait', 'get')]
-            nb = [c for c in reads if last_attr(c) == 'get_nowait' or any(k.arg == 'block' and isinstance(k.value, ast.Constant) and k.value.value is False for k in c.keywords)
-                  or (c.args and isinstance(c.args[0], ast.Constant) and c.args[0].value is False)]
-            ok = bool(reads) and len(nb) == len(reads)
-    ctx.check('R3', 'next_result: the read is non-blocking once the worker is not alive', ok, 'PersistentWorker.next_result', 'blocking-read-when-dead',
+    # non-blocking read when not alive: for every read of the result pipe, the effective `block` argument is provably false whenever is_alive() is false
+    # (three-valued evaluation: the read sits on the not-alive side of a test of is_alive(), or its block argument is `... and self.is_alive()` / False)
+    pmr = parent_map(nr.node)
+
+    def local_def(name):
+        ds = [st.value for st in walk_local(nr.node) if isinstance(st, ast.Assign) and len(st.targets) == 1 and is_name(st.targets[0], name)]
+        return ds[0] if len(ds) == 1 else None
+
+    def false_when_dead(e, depth=0):
+        """is expression e certainly false once self.is_alive() is false?"""
+        if e is None:
+            return False
+        if isinstance(e, ast.Constant):
+            return e.value is False
+        if isinstance(e, ast.Call) and last_attr(e) == 'is_alive' and receiver(e) == 'self':
+            return True
+        if isinstance(e, ast.BoolOp) and isinstance(e.op, ast.And):
+            return any(false_when_dead(v, depth) for v in e.values)
+        if isinstance(e, ast.BoolOp) and isinstance(e.op, ast.Or):
+            return all(false_when_dead(v, depth) for v in e.values)
+        if isinstance(e, ast.Name) and depth < 3:
+            d = local_def(e.id)
+            return d is not None and false_when_dead(d, depth + 1)
+        return False
+    reads_all = [c for c in calls_in(nr.node) if last_attr(c) in ('get', 'get_nowait', 'recv') and 'endpoint' in (receiver(c) or '') + norm(c.func)]
+    ok = bool(reads_all)
+    for c in reads_all:
+        stn = c
+        while stn in pmr and not isinstance(stn, ast.stmt):
+            stn = pmr[stn]
+        facts = facts_at(pmr, stn)
+        alive_here = ('self.is_alive()', True) in facts
+        dead_here = ('self.is_alive()', False) in facts
+        if last_attr(c) == 'get_nowait':
+            continue
+        barg = next((k.value for k in c.keywords if k.arg == 'block'), c.args[0] if c.args else None)
+        if alive_here:
+            continue                      # this read only runs for a live worker
+        if barg is not None and false_when_dead(barg):
+            continue
+        if dead_here and barg is not None and isinstance(barg, ast.Constant) and barg.value is False:
+            continue
+        ok = False
+    ctx.check(rule, 'next_result: the read is non-blocking once the worker is not alive', ok, 'PersistentWorker.next_result', 'blocking-read-when-dead',
               'next_result() does a blocking read on a worker that is not alive: if the stream has ended it blocks forever instead of raising queue.Empty',
               where=loc(nr, nr.node))
     # flag false -> queue.Empty
@@ -393,7 +425,7 @@ def check_reader(ctx):
             if sp and any(isinstance(x, ast.Raise) and 'Empty' in norm(x.exc) for x in sp[1]):
                 ok = True
                 marker_branch = sp[1]          # statements run when the flag is false
-    ctx.check('R3', 'next_result: an end marker (flag False) raises queue.Empty', ok, 'PersistentWorker.next_result', 'marker-not-mapped-to-Empty',
+    ctx.check(rule, 'next_result: an end marker (flag False) raises queue.Empty', ok, 'PersistentWorker.next_result', 'marker-not-mapped-to-Empty',
               'next_result() does not turn the end-of-stream marker into queue.Empty', where=loc(nr, nr.node))
     # the end of the stream is latched: nothing is ever written after the marker, so once it has been read no later call may wait
     # (is_alive() is no evidence - the forwarding thread of a remote worker outlives the marker it has forwarded)
@@ -401,25 +433,30 @@ def check_reader(ctx):
     for x in marker_branch or []:
         if isinstance(x, ast.Assign) and len(x.targets) == 1 and is_self_attr(x.targets[0]) and isinstance(x.value, ast.Constant) and x.value.value is True:
             latch = x.targets[0].attr
-    ctx.check('R3', 'next_result: reading the end marker is remembered (a flag is set before queue.Empty is raised)', latch is not None, 'PersistentWorker.next_result', 'end-of-stream-not-latched',
+    ctx.check(rule, 'next_result: reading the end marker is remembered (a flag is set before queue.Empty is raised)', latch is not None, 'PersistentWorker.next_result', 'end-of-stream-not-latched',
               'next_result() forgets that it has read the end-of-stream marker: a later call made while is_alive() is still true (the forwarding thread of a remote worker stays alive '
               'for a while after the marker) does a blocking read on a pipe nobody writes to any more and never returns, even after the worker has died', where=loc(nr, nr.node))
     if latch is not None:
+        raised = [x for x in walk_local(nr.node) if isinstance(x, ast.Assign) and any(is_self_attr(t, latch) for t in x.targets) and isinstance(x.value, ast.Constant) and x.value.value is True]
+        stray = [x for x in raised if not any(x is y for mb in (marker_branch or []) for y in ast.walk(mb))]
+        ctx.check(rule, f'next_result: self.{latch} is raised only where the end marker has just been read', not stray, 'PersistentWorker.next_result', 'stream-ended-without-a-marker',
+                  f'next_result() declares the stream ended (self.{latch} = True) on a path that has not read the end marker - e.g. when a non-blocking read finds nothing ready yet on a '
+                  'live worker: every later next_result()/call() raises queue.Empty although the results are delivered', where=loc(nr, stray[0]) if stray else loc(nr, nr.node))
         gn = ctx.an.cfg(nr, PW)
         dom = gn.dominators(edge_ok=is_flow)
         good = {e.dst.id for n in gn.nodes if n.kind == 'test' for e in n.succ if e.kind in ('true', 'false') and (f'self.{latch}', False) in edge_facts(e)}
         reads = [n for n in gn.nodes if n.stmt is not None and n.part == 'eval' and any(last_attr(c) in ('get', 'get_nowait', 'recv') for c in n.calls())]
         okl = bool(reads) and all(dom.get(n.id, set()) & good for n in reads)
-        ctx.check('R3', f'next_result: every read of the result pipe is dominated by `not self.{latch}`', okl, 'PersistentWorker.next_result', 'read-after-end-of-stream',
+        ctx.check(rule, f'next_result: every read of the result pipe is dominated by `not self.{latch}`', okl, 'PersistentWorker.next_result', 'read-after-end-of-stream',
                   f'a read of the result pipe in next_result() is not guarded by the end-of-stream flag self.{latch}', where=loc(nr, nr.node))
         inits = [f for f in P.funcs.values() if f.name == '__init__' and f.cls is not None and any(
             isinstance(x, ast.Assign) and any(is_self_attr(t, latch) for t in x.targets) and isinstance(x.value, ast.Constant) and x.value.value is False for x in walk_local(f.node))]
-        ctx.check('R3', f'the end-of-stream flag self.{latch} starts False in the constructor (and so after every restart)', bool(inits), 'PersistentWorker.__init__', 'latch-not-initialised',
+        ctx.check(rule, f'the end-of-stream flag self.{latch} starts False in the constructor (and so after every restart)', bool(inits), 'PersistentWorker.__init__', 'latch-not-initialised',
                   f'self.{latch} is not initialised to False by a constructor: next_result() raises AttributeError, or a restarted worker starts with an ended stream', where=loc(nr, nr.node))
         writers = [(f, x) for f in P.funcs.values() for x in walk_local(f.node) if isinstance(x, (ast.Assign, ast.AugAssign)) and any(
             is_self_attr(t, latch) for t in (x.targets if isinstance(x, ast.Assign) else [x.target]))]
         foreign = [(f, x) for f, x in writers if f not in inits and f is not nr]
-        ctx.check('R3', f'self.{latch} is written only by the constructor and by next_result', not foreign, foreign[0][0].short if foreign else 'PersistentWorker.next_result',
+        ctx.check(rule, f'self.{latch} is written only by the constructor and by next_result', not foreign, foreign[0][0].short if foreign else 'PersistentWorker.next_result',
                   'latch-written-elsewhere', f'self.{latch} is also written by {foreign[0][0].short if foreign else ""}: the stream can be declared ended (results lost) or re-opened (a read that never returns)',
                   where=loc(foreign[0][0], foreign[0][1]) if foreign else loc(nr, nr.node))
     # PipeEndpoint.get(block=False): poll before recv, all transport failures -> queue.Empty
@@ -430,7 +467,7 @@ def check_reader(ctx):
     summ = ctx.an.summary(get, PE)
     lat = ctx.an.lattice
     esc = sorted({x for x, cause in summ if any(lat.is_sub(x, b) for b in ('OSError', 'EOFError'))})
-    ctx.check('R3', 'PipeEndpoint.get: every transport failure is mapped to queue.Empty', not esc, 'PipeEndpoint.get', 'escape:' + ','.join(esc),
+    ctx.check(rule, 'PipeEndpoint.get: every transport failure is mapped to queue.Empty', not esc, 'PipeEndpoint.get', 'escape:' + ','.join(esc),
               f'{esc} raised by Connection.recv()/poll() on a dead or killed peer escapes PipeEndpoint.get instead of being reported as queue.Empty: '
               'next_result() / has_error raise on a dead worker', where=loc(get, get.node))
     g = ctx.an.cfg(get, PE)
@@ -447,18 +484,18 @@ def check_reader(ctx):
         starts = [e.dst for n in bt for e in n.succ if e.kind == ('true' if neg else 'false')]
         p = g.find_path(starts, lambda n: n in recv_nodes, edge_ok=is_flow, node_ok=lambda n: n.id not in poll_ids)
         ok = p is None
-    ctx.check('R3', 'PipeEndpoint.get(block=False): a successful poll() precedes the receive', ok, 'PipeEndpoint.get', 'nonblocking-read-without-poll',
+    ctx.check(rule, 'PipeEndpoint.get(block=False): a successful poll() precedes the receive', ok, 'PipeEndpoint.get', 'nonblocking-read-without-poll',
               'the non-blocking read receives without polling first: it can block on an empty pipe', where=loc(get, get.node))
     gn = PE.methods.get('get_nowait')
     ok = gn is not None and any(last_attr(c) == 'get' and any(k.arg == 'block' and isinstance(k.value, ast.Constant) and k.value.value is False for k in c.keywords)
                                 for c in calls_in(gn.node))
-    ctx.check('R3', 'PipeEndpoint.get_nowait is get(block=False)', ok, 'PipeEndpoint.get_nowait', 'get_nowait-blocks',
+    ctx.check(rule, 'PipeEndpoint.get_nowait is get(block=False)', ok, 'PipeEndpoint.get_nowait', 'get_nowait-blocks',
               'get_nowait() does not request a non-blocking read', where=loc(gn, gn.node) if gn else None)
     # results_iter stops on queue.Empty
     ri = PW.methods.get('results_iter')
     ok = ri is not None and any(isinstance(st, ast.Try) and any('Empty' in ' '.join(ctx.an.handler_types(h, ri)) and any(isinstance(x, (ast.Break, ast.Return)) for x in h.body)
                                                                 for h in st.handlers) for st in walk_local(ri.node))
-    ctx.check('R3', 'results_iter stops when next_result raises queue.Empty', ok, 'PersistentWorker.results_iter', 'iter-does-not-stop',
+    ctx.check(rule, 'results_iter stops when next_result raises queue.Empty', ok, 'PersistentWorker.results_iter', 'iter-does-not-stop',
               'results_iter() does not stop on queue.Empty', where=loc(ri, ri.node) if ri else None)
 
 
